@@ -387,5 +387,9 @@ def run(chk, prog):
                       % (f["name"], "reads" if kind == "read" else "updates", fld, "" if before else " -- it sees the value left by the previous call: records depend on the output cadence"),
                       "observer-history:%s:%s" % (f["name"], fld))
     chk.floor("R5-observer-self-reads", n5, 2)
+    # ---- R6: equal inputs give equal outputs: nothing the physics indexes with starts from an indeterminate value ---------------------------------------
+    # (members used as array indices are initialised by every constructor: decided under C17 R11; re-evaluated here)
+    from .common import reeval
+    reeval(chk, prog, "C17", lambda i: i["rule"] == "R11", "R6", "R6-index-members-initialised", 3)
     chk.notes.append("C12: E4 write sets of every call in the output block vs. the simulation state, observer-free control/data of state-writing calls, "
                      "tracking as a sink, who-may-call for nondeterminism sources. NOT decided: bit-identity of two concrete executions.")
